@@ -57,12 +57,20 @@ _inv = contextvars.ContextVar("c22_inv", default=-1)
 
 
 class _Val:
-    __slots__ = ("res", "creator", "deps")
+    __slots__ = ("res", "creator", "deps", "empty")
 
     def __init__(self, res, creator, deps):
         self.res = res
         self.creator = creator
         self.deps = deps
+        self.empty = bool(_EMPTY[res]) if res < len(_EMPTY) else False
+
+    def __len__(self):
+        # a resource value may well be FALSY (an empty list / dict used as a shared buffer, 0, '' ...): ob_falsy_values sets _EMPTY
+        return 0 if self.empty else 1
+
+
+_EMPTY = [False, False, False]   # which factories produce a falsy value (see _Val.__len__)
 
 
 def _scenario(n, edges, is_async, cached, gates, roots, starts) -> bool:
@@ -290,6 +298,23 @@ def ob_graph2(e01: bool, e10: bool, a0: bool, a1: bool, c0: bool, c1: bool, g0: 
     """
     r = 1 if rb == 1 else 0
     return _scenario(2, [[False, e01], [e10, False]], [a0, a1], [c0, c1], [g0, g1], [[0, 1] if two else [0], [r]], [sa, sb])
+
+
+@obligation(quick=150, thorough=300, partitions_quick=[f"f0 == {a} and f1 == {b}" for a in (False, True) for b in (False, True)],
+            what="as ob_graph2 with resource VALUES that are falsy (len() == 0: an empty buffer, 0, ''): two invocations one after the other "
+                 "(no overlap), every sync/async, cached/non-cached combination and edge set",
+            bounds={"factories": 2, "falsy": "per factory", "invocations": "A injects 0 (or 0 and 1), B injects rb, B after A has finished"})
+def ob_falsy_values(e01: bool, e10: bool, a0: bool, a1: bool, c0: bool, c1: bool, f0: bool, f1: bool, rb: int, two: bool) -> bool:
+    """
+    pre: 0 <= rb <= 1
+    post: _
+    """
+    r = 1 if rb == 1 else 0
+    _EMPTY[0], _EMPTY[1] = (True if f0 else False), (True if f1 else False)
+    try:
+        return _scenario(2, [[False, e01], [e10, False]], [a0, a1], [c0, c1], [1 if a0 else 0, 1 if a1 else 0], [[0, 1] if two else [0], [r]], [0, 4])
+    finally:
+        _EMPTY[0] = _EMPTY[1] = False
 
 
 _P3 = [f"e01 == {a} and e12 == {b} and e02 == {c} and e20 == {d} and rb == {r}"
